@@ -51,10 +51,11 @@ def relayout(rng, elab, items, tyname=None, depth=0):
                 out.append(next(it_kv))
         items = out
     lines = []
-    ind = rng.choice(WS) * rng.randint(0, 3)
+    ind = rng.choice(WS) * rng.randint(0, 3) if rng.random() < 0.85 else " " * rng.choice([4, 8, 16, 40])
     for it in items:
         if rng.random() < 0.2:
-            lines.append(rng.choice(["", "   ", "# a comment", "\t#<x>", "#%define q", " "]))
+            lines.append(rng.choice(["", "   ", "# a comment", "\t#<x>", "#%define q", " ", "# ---- servers \x0c page two ----", "#\u2028k v", "# \x85 x y",
+                                     "# a\x0bb </x>", "#" + "c" * 5000, "# " + "word " * 1800]))
         tail = rng.choice(WS)
         if it[0] == "kv":
             key = it[1]
@@ -145,6 +146,11 @@ def run(ctx):
             a.overrides = b.overrides = tuple(specs)
             if specs:
                 ctx.count("with-overrides")
+        if rng.random() < 0.4:
+            # the re-laid-out text is read from a FILE (by path or file: URL), the canonical one from a stream
+            b.files = {}
+            b.meta = {"main": "main.conf", "entry": rng.choice(["abs", "url", "fileobj-abs"])}
+            ctx.count("rewritten-read-from-file")
         A.append(a)
         B.append(b)
     cfgstream.evaluate(ctx, A)
